@@ -115,6 +115,9 @@ struct World {
 	// when non-zero, version-2 response PDUs are padded with an unknown non-critical, forward-flagged element so that the
 	// whole PDU has exactly this many bytes (the largest legal PDU is 65535 + 4 bytes)
 	size_t pad_total = 0;
+	// when >= 0, make_signature appends an unknown non-critical, forward-flagged element with this many payload bytes to the
+	// signature (254 / 255 / 256 sit on the boundary between the short and the long TLV header)
+	int sig_extra_len = -1;
 
 	std::string aggr_reply(const ReqInfo &rq, const EndpointCfg &ep, int behav, uint64_t subseed, ReplyMeta &meta);
 	std::string ext_reply(const ReqInfo &rq, const EndpointCfg &ep, int behav, uint64_t subseed, ReplyMeta &meta);
